@@ -275,6 +275,32 @@ func setReferenceForms(name string, form int, async bool) *spec.Spec {
 	return b.s
 }
 
+// injectorNameForms: declarations whose injector name cannot become a
+// package-level function: used twice in one file (0) or in two files of one
+// package (4), equal to a function the user wrote (1), a keyword (2), not an
+// identifier (3), init (5). The generator may refuse them; what it must not
+// do is exit 0 and write a file that breaks the package.
+func injectorNameForms(name string, kind int) *spec.Spec {
+	b := newBuilder(name)
+	b.s.Dynamic = false
+	cfg := b.ptr(b.strct("Config", ""))
+	app := b.ptr(b.strct("App", ""))
+	p1 := b.fn("NewConfig", "", nil, []int{cfg}, false, false)
+	p2 := b.fn("NewApp", "", []int{cfg}, []int{app}, kind%2 == 0, false)
+	second := []string{"InitializeApp", "ExistingHelper", "type", "initialize app", "InitializeApp", "init"}[kind]
+	b.inject("InitializeApp", app, p1, p2)
+	b.inject(second, cfg, p1)
+	if kind == 1 {
+		b.s.ExtraDecl = "func ExistingHelper() int { return 0 }\n"
+	}
+	if kind == 4 {
+		b.s.Files = []string{"kessoku.go", "wiring1.go"}
+		b.s.Injectors[1].File = 1
+	}
+	b.s.Features = append(b.s.Features, fmt.Sprintf("injector-name-not-free-%d", kind))
+	return b.s
+}
+
 // allInvocationModes makes what a corpus program exercises independent of its
 // position in the list: the program itself is generated by one run over all
 // its files; a copy "…v" by one run per file (programs with several files);
@@ -323,6 +349,9 @@ func corpusSpecs(prop string) []*spec.Spec {
 		}
 		fs = append(fs, setReferenceForms("ks"+prop[1:]+"p", 0, true), setReferenceForms("ks"+prop[1:]+"x", 1, true))
 		if prop == "C04" {
+			for k := 0; k < 6; k++ {
+				fs = append(fs, injectorNameForms(fmt.Sprintf("kn04i%d", k), k))
+			}
 			for v := 0; v < 3; v++ {
 				fs = append(fs, unexportedForeign(fmt.Sprintf("ku04v%d", v), v))
 			}
